@@ -296,8 +296,35 @@ def run_shard(seed, shard, n_cases, tier):
     return res
 
 
+KNOWN = {
+    # key -> (pass spec, predicate on the original module, counterfactual context manager)
+    "movememrefdims-affine-min-replaced-by-constant": ("reuse-memref-allocs", "has_dim_of_min_sized_subview_in_loop", "move_memref_dims_rejects_affine_min"),
+    "mergeforloops-imperfect-nest": ("pipeline-canonicalize-for", "has_imperfect_nest", "merge_for_loops_rejects_imperfect_nests"),
+}
+
+
 def attribute(v):
-    """Known-finding attribution (mechanism predicates + counterfactuals).  None = unattributed."""
+    """Known-finding attribution: structural predicate on the original program + the violation disappears when the one
+    responsible repo pattern is replaced in-process by a rejecting version (vf/counterfactual/loops.py).  None = unattributed."""
+    case = v.get("case") or {}
+    if not case:
+        return None
+    from vf.counterfactual import loops as CF
+
+    for key, (spec, pred, cf) in KNOWN.items():
+        if case.get("spec") != spec:
+            continue
+        try:
+            p0 = parse(ctx(), case["text"])
+        except Exception:
+            return None
+        if not getattr(CF, pred)(p0):
+            continue
+        vecs = [] if case.get("vec") is None else [case["vec"]]
+        with getattr(CF, cf)():
+            again = run_one(case["text"], case.get("fname", "main"), case["args"], vecs, R.new_result())
+        if not [a for a in again if a["case"].get("spec") == spec]:
+            return key
     return None
 
 
